@@ -462,17 +462,6 @@ proc_harness!(c16_proc_tick, EV_TICK, F_COST);
 proc_harness!(c01_proc_new, EV_NEW, F_P);
 proc_harness!(c05_proc_tick, EV_TICK, F_TTL);
 
-cache_harness! {
-    [kani::unwind(6)]
-    fn probe_fixture_only() {
-        let cfg = any_cfg();
-        let (p, a, b, _ents) = any_parked(TransparentKeyBuilder::<u64>::default(), 0, cfg, Some(true));
-        vassert!(p.cache.len() <= 2, "fixture has at most two residents");
-        vcover!(a.is_some() && b.is_some(), "two residents");
-        std::mem::forget(p);
-    }
-}
-
 // ------------------------------------------------------------------------------------------------
 // One client call from an arbitrary quiescent state (C02, C03, C08, C09, C16)
 // ------------------------------------------------------------------------------------------------
@@ -903,6 +892,42 @@ finalize_harness!(c20_finalize_rejects_n0, 0);
 finalize_harness!(c20_finalize_rejects_mc0, 1);
 finalize_harness!(c20_finalize_rejects_bs0, 2);
 
+harness! {
+    [kani::unwind(3)]
+    fn c20_builder_wrapper_setters() {
+        // the public CacheBuilder forwards every setter to the same-named core setter (whose frame
+        // condition is c20_builder_core_setters): one step from an arbitrary builder state
+        use crate::cache::builder::verif_harness as bh;
+        let b = CacheBuilder { inner: bh::any_core() };
+        let before = bh::snap(&b.inner);
+        let op = nd::any_u8();
+        nd::assume(op < bh::N_SETTERS);
+        let u = nd::any_usize();
+        let i = nd::any_i64();
+        let f = nd::any_bool();
+        let nanos = nd::any_u32();
+        nd::assume(nanos < 1_000_000_000);
+        let d = Duration::new(nd::any_u64(), nanos);
+        let after = match op {
+            0 => bh::snap(&b.set_num_counters(u).inner),
+            1 => bh::snap(&b.set_max_cost(i).inner),
+            2 => bh::snap(&b.set_buffer_items(u).inner),
+            3 => bh::snap(&b.set_buffer_size(u).inner),
+            4 => bh::snap(&b.set_metrics(f).inner),
+            5 => bh::snap(&b.set_ignore_internal_cost(f).inner),
+            6 => bh::snap(&b.set_cleanup_duration(d).inner),
+            7 => bh::snap(&b.set_key_builder(bh::OtherKb).inner),
+            8 => bh::snap(&b.set_coster(bh::OtherCoster).inner),
+            9 => bh::snap(&b.set_update_validator(DefaultUpdateValidator::<u64>::default()).inner),
+            10 => bh::snap(&b.set_callback(DefaultCacheCallback::<u64>::default()).inner),
+            _ => bh::snap(&b.set_hasher(HS::default()).inner),
+        };
+        vassert!(after == bh::expect(before, op, u, i, f, d), "every CacheBuilder setter changes exactly the parameter it names and carries every other parameter over unchanged");
+        vcover!(op == 3 && before.buffer_items != u, "set_buffer_size with a value different from buffer_items");
+        vcover!(op == 7 && before.buffer_items != before.insert_buffer_size, "set_key_builder with buffer_items != insert buffer size");
+    }
+}
+
 cache_harness! {
     [kani::unwind(6)]
     fn c20_closed_is_inert() {
@@ -1206,69 +1231,6 @@ cache_harness! {
         std::mem::forget(p);
     }
 }
-
-fn probe_new(n_max: usize, with_ttl: bool) {
-    let cfg = any_cfg();
-    let (mut p, _a, _b, _ents) = any_parked_n(TransparentKeyBuilder::<u64>::default(), 0, cfg, Some(true), n_max);
-    let k = nd::any_u64();
-    let cost = nd::any_i64_in(0, COST_MAX);
-    let d = if with_ttl { any_duration(4) } else { Duration::ZERO };
-    let item = Item::New { key: k, conflict: 0, cost, value: 2, expiration: time_at(clock::get(), d) };
-    let r = p.proc_.handle_insert_event(Ok(item));
-    vassert!(r.is_ok(), "handling a New item does not fail");
-    vassert!(p.sp_ok(k), "I-SP: the addressed key is resident iff it is charged");
-    vcover!(raw(&p.store, k).is_some(), "admitted");
-    std::mem::forget(p);
-}
-cache_harness! {
-    [kani::unwind(6)]
-    fn probe_new_n0_nottl() {
-        probe_new(0, false);
-    }
-}
-cache_harness! {
-    [kani::unwind(6)]
-    fn probe_new_n0_ttl() {
-        #[cfg(kani)]
-        unsafe {
-            crate::policy::verif_harness::psync::CONTRACT_TRIVIAL = true;
-        }
-        probe_new(0, true);
-    }
-}
-cache_harness! {
-    [kani::unwind(6)]
-    fn probe_new_n1_nottl() {
-        probe_new(1, false);
-    }
-}
-
-fn probe_parts(part: u8) {
-    let cfg = any_cfg();
-    let (mut p, _a, _b, _ents) = any_parked_n(TransparentKeyBuilder::<u64>::default(), 0, cfg, Some(true), 1);
-    let k = nd::any_u64();
-    if part == 1 {
-        let r = p.cache.try_remove(&k);
-        vassert!(r.is_ok(), "remove ok");
-        vcover!(true, "p1");
-    } else if part == 2 {
-        let g = p.cache.get(&k).is_some();
-        vassert!(g == raw(&p.store, k).is_some(), "get");
-        vcover!(g, "p2");
-    } else if part == 3 {
-        vassert!(p.enqueue(Item::Delete { key: k, conflict: 0 }), "enq");
-        vassert!(p.process_one_mask(M_DELETE), "processed");
-        vcover!(true, "p3");
-    } else {
-        vassert!(p.enqueue(Item::Delete { key: k, conflict: 0 }), "enq");
-        vcover!(true, "p4");
-    }
-    std::mem::forget(p);
-}
-cache_harness! { [kani::unwind(6)] fn probe_part1() { probe_parts(1); } }
-cache_harness! { [kani::unwind(6)] fn probe_part2() { probe_parts(2); } }
-cache_harness! { [kani::unwind(6)] fn probe_part3() { probe_parts(3); } }
-cache_harness! { [kani::unwind(6)] fn probe_part4() { probe_parts(4); } }
 
 // ------------------------------------------------------------------------------------------------
 // Wiring of the processor's New arm (C06, C08, C16): for EVERY outcome of the policy (arbitrary
